@@ -42,6 +42,57 @@ CHECKS = {
          "TLC checks the algebraic laws of the reference on the complete boundary grid (all 256 exponents, all bit lengths 0..256, truth table at target-1/target/target+1 and chain limit) and then validates every recorded call of uint256_from_compact / compact_from_uint256 / CheckProofOfWork under each chain against that reference; the grid is exhaustive in the exponent, sampled in the mantissa",
          TB + "; chain limits from Core's chainparams.cpp", "DESIGN.md section 3 C17"),
 }
+
+CHECKS.update({
+ "C05": ("model_checking",
+         "SignFlow.tla (sign -> edit -> verify machine with ideal signatures) model-checked by TLC: the commitment table is derived for every shape/position/hash type/edit; real sign/edit/verify histories are validated by TLC evaluating the whole VerifyScript (ScriptVM.tla) with ECDSA on secp256k1 (Curve.tla) and the table's prediction (Trace_ScriptVM flow.verify)",
+         "TLC explores every history of the ideal-signature machine up to 3x3 transactions (exhaustive for the catalogue); each recorded real history (template x hash type x position x edit) is re-evaluated in the spec with the actual signatures; quick samples a third of the template x type grid, thorough takes all",
+         TB + "; curve formulas model-checked exhaustively only on a toy curve", "DESIGN.md section 3 C05"),
+ "C09": ("model_checking",
+         "ValueSem.tla (heap of transaction objects with explicit references; Freeze/Thaw copy discipline) model-checked by TLC (immutables closed and stable, no shared mutable sub-object, edits independent) with EVERY reached state replayed into real objects (spec->code), plus TLC-simulated long histories and an attribute-immutability probe",
+         "exhaustive over all operation histories up to the depth bound (3 quick / 4 thorough operations, 13 operation kinds, up to 3 handles), random beyond (depth 14); after each history every live handle's serialisation, txid, recomputed and cached identifier, identity and the ==/hash matrix are compared with the spec",
+         TB + "; the replayer never aliases mutable sub-objects itself", "DESIGN.md section 3 C09"),
+ "C10": ("model_checking",
+         "Base58.tla (big-integer reference, Base58Check rule) model-checked by TLC on all byte strings <=2 bytes and alphabet strings <=3 chars; recorded encode/decode/CBase58Data calls incl. every single-character substitution/deletion/insertion validated by TLC (Trace_Base58)",
+         "mutual-inverse laws checked exhaustively on the small spaces at spec level; every recorded call must equal the reference outcome class and value",
+         TB, "DESIGN.md section 3 C10"),
+ "C11": ("model_checking",
+         "Bech32.tla (BIP173 codec) model-checked by TLC: round trip for all versions x lengths x prefixes, a witness string per decode rule, every single substitution of sample addresses rejected, and detection of all 1-3 substitution errors in the data part via checksum linearity (syndrome sets); recorded decodes of corrupted real addresses validated by TLC (Trace_Bech32)",
+         "spec level: exhaustive single substitutions and the syndrome argument for up to three errors (lengths 39/59/87); implementation level: every single substitution by any printable character, every case class, truncation/extension and seeded 2-4-fold substitutions (all doubles in thorough) judged against the reference decoder",
+         TB + "; 4-substitution detection is sampled, not proven", "DESIGN.md section 3 C11"),
+ "C12": ("model_checking",
+         "Chain.tla/Address.tla: the selected chain as a state machine model-checked by TLC over all SelectParams histories <=3 with cross-chain re-parsing; recorded histories of SelectParams + conversions validated by TLC with the chain tracked as specification state (Trace_Address)",
+         "all selection histories to depth 3 at spec level; seeded histories at implementation level with every chain's texts, WIF strings, unsupported witness versions, wrong-length payloads, corruptions and junk parsed under the current chain",
+         TB, "DESIGN.md section 3 C12"),
+ "C13": ("model_checking",
+         "Curve.tla/Der.tla/Keys.tla: curve and ECDSA formulas model-checked exhaustively by TLC on a toy curve (all keys x nonces x digests); recorded key derivation, WIF, sign and verify calls judged by TLC evaluating the same formulas on secp256k1 (Trace_Keys)",
+         "formulas exhaustive on the toy curve; on secp256k1 every recorded call (boundary secrets, boundary digests, the r/s perturbation matrix, public-key candidates) is checked against the reference",
+         TB + "; secp256k1 constants sanity-checked (G on curve, n*G = infinity)", "DESIGN.md section 3 C13"),
+ "C14": ("model_checking",
+         "Keys.tla (message digest, header byte, SEC1 public-key recovery) with recovery model-checked on the toy curve; recorded SignMessage/VerifyMessage calls judged by TLC on secp256k1 (Trace_Keys)",
+         "every recorded signature must recover (in the spec) to exactly the signer's key with the right header flags, and every VerifyMessage answer must equal the reference for the signer's, foreign and perturbed inputs",
+         TB + "; signatures from which no key can be recovered are outside the property", "DESIGN.md section 3 C14"),
+ "C15": ("model_checking",
+         "Merkle.tla: the level-by-level algorithm model-checked by TLC equal to an independent top-down definition for every leaf count 1..300 over symbolic leaves; recorded merkle roots, witness roots, constructor outcomes and weights validated by TLC (Trace_Checks)",
+         "every leaf count to 300 at spec level; recorded blocks with the listed counts (with/without witness, duplicates)",
+         TB, "DESIGN.md section 3 C15"),
+ "C16": ("model_checking",
+         "Checks.tla (one predicate per consensus rule) with the rule catalogue model-checked by TLC (each violation falsifies exactly its rule); recorded CheckTransaction/CheckBlock calls on valid objects and every catalogue violation under each chain validated by TLC (Trace_Checks)",
+         "catalogue-exhaustive: every listed single-rule violation, in a later transaction and in the coinbase, under the chains' limits; proof of work ground for real at regtest difficulty",
+         TB + "; commitment scripts of 38..39 bytes only", "DESIGN.md section 3 C16"),
+ "C18": ("model_checking",
+         "P2P.tla (17 payload layouts, framing, stream parser) with the parser model-checked by TLC as a state machine over streams of <=2 frames with one fault; recorded framings and stream reads validated by TLC with the stream position as specification state (Trace_P2P)",
+         "spec level: all streams over a 7-message universe x chains x every header-byte corruption / truncation / hostile length; implementation level: all 17 types framed byte-exactly, every single-byte corruption and truncation of sampled frames, hostile lengths, multi-frame streams",
+         TB + "; unknown command returns None after consuming exactly the frame (named deviation)", "DESIGN.md section 3 C18"),
+ "C19": ("model_checking",
+         "Rpc.tla (call/reply protocol machine; exact decimal and reversed-hex codecs) model-checked by TLC over all call/reply histories <=3; recorded calls through an injected connection validated by TLC with the last request id as specification state (Trace_Rpc)",
+         "protocol histories exhaustive at spec level; every recorded amount (raw JSON token), hash, object and error outcome checked against the reference",
+         TB + "; request bodies re-tokenised with Python's json hooks", "DESIGN.md section 3 C19"),
+ "C20": ("model_checking",
+         "Bloom.tla (MurmurHash3 x86_32 + BIP37 filter machine) model-checked by TLC over all insert/query/round-trip histories <=3 on small filters (incl. empty data) and the published Murmur vectors; recorded filter histories validated by TLC with the filter as specification state (Trace_Bloom)",
+         "spec level: all short histories on small filters; implementation level: seeded histories on constructed and wire-arrived filters with the full filter compared after every call",
+         TB + "; sizing formula only up to the protocol caps", "DESIGN.md section 3 C20"),
+})
 PENDING = {}
 ALL = ["C%02d" % i for i in range(1, 21)]
 
